@@ -64,4 +64,29 @@ PROPS = {
                        "size limits observed at fill_buf/flush, progress after flush/fill, and deadlock = a parked task nobody will wake."),
         "level_note": "Trusts iosim's channel model and the executor's deadlock detection; the write-side buffer size is only observable through the byte count a complete flush reports.",
     },
+    "C13": {
+        "title": "Framing and ancillary codecs: round-trip and hostile-input safety (framing half; pure ancillary builder round-trip not claimed, DESIGN §8)",
+        "engine": "S",
+        "package": "check-s",
+        "bin": "check-s",
+        "design_ref": "§3, §7 C13, §8",
+        "technique": "deterministic simulation: Framed sink -> fault-injecting duplex channel -> Framed stream as two simulated tasks (all framers, bytes and serde_json codecs), sequence-equality oracle; hostile peer bytes into the reading side with panic / endless-loop / step-bound oracles; choice-sequence minimisation and replay",
+        "tiers": {
+            "quick": {"runs": 2_000_000, "time_limit_s": 60},
+            "thorough": {"runs": 150_000_000, "time_limit_s": 1500},
+        },
+        "rule": S_RULE,
+        "real": S_REAL + ["bytes", "serde_json"],
+        "stub": S_STUB,
+        "assumptions": [
+            "payloads never contain the delimiter (delimiter framers cannot escape it) and fit the length field width",
+            "writer-side faults are retryable only (a frame cut by a hard write error cannot be resumed); the reader side may also fail hard once without losing data",
+            "the pure AncillaryBuilder/CMsgIter round-trip over message lists is input-only and NOT decided here; control messages through real sockets belong to the C14 workload",
+            "a truncated frame at EOF is dropped silently by design (the stream ends); not flagged",
+            "sampling, not enumeration",
+        ],
+        "level_text": ("Seeded exploration of fragmentation (short reads/writes down to 1 byte, Pending, Interrupted, hold-until-flush transports, back-pressure) between a real Framed sink and a real "
+                       "Framed stream for every framer/codec, plus hostile byte strings (huge length fields, split delimiters, truncated headers, malformed JSON) with EOF anywhere."),
+        "level_note": "Only the framing half of C13 is claimed. Trusts iosim's channel model.",
+    },
 }
